@@ -112,6 +112,7 @@ def file_sources():
     # CR in every position relative to a line end; CR LF inside a long string and a comment; tabs; a line of glyphs only
     out += [b'x=1\r\ny=2\r\n', b'-- a\r\n-- b\r\n', b's=[[a\r\nb\r\n]]\r\nz=1\n', b'x=1 \r\n', b'--[[c\r\nd]]\n', b'\t\tx=1\t\n',
             bytes(range(128, 256)) + b'=1\n', b'--' + bytes(range(16, 32)) + b'\x7f\n', b'x=1 -- \r\r\n']
+    out.append(b''.join(bytes([b]) + b'x=' + bytes([b]) + b'\n' for b in range(128, 256)))      # every glyph starting an identifier
     # one very long line of multi-byte glyphs (a data string): far more than 64 KiB of UTF-8 text, well within the code limit
     out.append(b's="' + bytes(0x9a + (i % 90) for i in range(30000)) + b'"\nx=1\n')
     out.append(b'--' + bytes([0x8e, 0x83, 0x94]) * 9000 + b'\n')
